@@ -322,10 +322,12 @@ bool frame_complete(const Snapshot &s, const SnapFrame &f, int64_t used, int64_t
     }
     return true;
 }
-// every frame carries exactly the declared points and channels ("complete frames")
+// every frame carries exactly the declared points and channels ("complete frames"), and the shape fits the format's
+// 8/16-bit header and dimension fields (beyond that is C17's subject, not content "within the format's capacity")
 bool frames_complete(const Snapshot &s) {
     int64_t used = 0, aused = 0;
     if (!get_int(s, "POINT", "USED", used) || !get_int(s, "ANALOG", "USED", aused)) return false;
+    if (used > 255 || aused > 255 || s.h.nbAnalogByFrame > 65535 || static_cast<uint64_t>(aused) * s.h.nbAnalogByFrame > 65535 || s.frames.size() > 32767) return false;
     const std::vector<std::string> *L = get_strs(s, "POINT", "LABELS");
     const std::vector<std::string> *AL = get_strs(s, "ANALOG", "LABELS");
     if (!L || !AL) return false;
